@@ -173,9 +173,7 @@ func runClientHistory(p *peers, kind string, ops []cOp, idx int) histResult {
 		if sc != nil {
 			// StdioClient.Close can stall 5 s (its own Cmd.Wait races with processWatcher's for the single ctxResult value):
 			// end the peer directly, the transport's watcher then winds everything down
-			if pid := sc.GetProcessID(); pid > 0 && !transportClosed {
-				syscall.Kill(pid, syscall.SIGKILL) // still our live child: nothing closed the transport
-			}
+			endStdioPeer(sc, transportClosed)
 			return
 		}
 		conn.Close()
@@ -500,4 +498,17 @@ func runClientSide(c *hk.Ctx) {
 			map[string]any{"outs": r.outs, "sends": r.sends}, r.handshake && r.refused,
 			"client-"+r.kind, "client-"+jobs[i].tag, fmt.Sprintf("client-len-%02d", min(len(r.ops), 20)))
 	}
+}
+
+// endStdioPeer winds a StdioClient down without waiting for the possible 5 s stall of Close(): kill the (still live,
+// still ours) child, then Close() in the background — it marks the transport closed at once, which stops the transport's
+// read loop (that loop spins on the dead pipe until then); whether it then stalls is nobody's concern any more.
+func endStdioPeer(sc *mcp.StdioClient, alreadyClosed bool) {
+	if alreadyClosed {
+		return
+	}
+	if pid := sc.GetProcessID(); pid > 0 {
+		syscall.Kill(pid, syscall.SIGKILL)
+	}
+	go sc.Close()
 }
